@@ -318,9 +318,13 @@ def parse_core(S, D, L):
         defaults.append((mb["name"], cv))
     info, _ = parse_struct_template(hr, "Info")
     result, _ = parse_struct_template(hr, "Result")
-    for mb in info + result:
+    # Info members may carry a neutral default initialiser (zero / PIQP_UNSOLVED); anything else is not understood
+    for mb in info:
+        if mb["init"] is not None and mb["init"].replace(" ", "") not in ("0", "T(0)", "Status::PIQP_UNSOLVED", "PIQP_UNSOLVED"):
+            hr.fail(mb["off"], f"unexpected initialiser '{mb['init']}' on Info member '{mb['name']}'")
+    for mb in result:
         if mb["init"] is not None:
-            hr.fail(mb["off"], f"unexpected initialiser on Info/Result member '{mb['name']}'")
+            hr.fail(mb["off"], f"unexpected initialiser on Result member '{mb['name']}'")
 
     # enum Status { A = 1, ... };
     m = find_unique(hr, r"\benum\s+(?:class\s+)?Status\s*\{", "enum Status")
